@@ -44,6 +44,10 @@ pub struct Variant {
     pub write: WriteFamily,
     pub rscript: Vec<u16>,
     pub select_seed: u64,
+    /// 1 = Login Acknowledged, 2 = also Client Information are sent in the same segment as the Encryption
+    /// Response (only when they are due at the instant of Login Success anyway)
+    #[serde(default)]
+    pub pipeline: u8,
 }
 
 #[derive(Clone, Debug, Serialize, Deserialize)]
@@ -240,9 +244,22 @@ impl Check for C08 {
             2 => proptest::collection::vec(prop_oneof![3 => 1u16..4, 1 => Just(0u16), 1 => 4u16..200], 1..80),
             1 => Just(vec![1u16; 400]),
         ];
-        let variant = (proptest::collection::vec(cut, 1..5), proptest::option::weighted(0.25, any::<u16>()), write, rscript, any::<u64>())
-            .prop_map(|(cuts, bytewise, write, rscript, select_seed)| Variant { cuts, bytewise, write, rscript, select_seed });
-        (c07::scenario_strategy(true), any::<u64>(), proptest::collection::vec(variant, 1..=8)).prop_map(|(sc, base_seed, variants)| Case { sc, base_seed, variants }).boxed()
+        let variant = (proptest::collection::vec(cut, 1..5), proptest::option::weighted(0.25, any::<u16>()), write, rscript, any::<u64>(), prop_oneof![2 => Just(0u8), 1 => Just(1u8), 1 => Just(2u8)])
+            .prop_map(|(cuts, bytewise, write, rscript, select_seed, pipeline)| Variant { cuts, bytewise, write, rscript, select_seed, pipeline });
+        (c07::scenario_strategy(true), any::<u64>(), proptest::collection::vec(variant, 1..=8), any::<u8>())
+            .prop_map(|(mut sc, base_seed, variants, zero)| {
+                // a share of scenarios in which the client acknowledges (and informs) at once, so that the
+                // frames can also travel in the segment of the Encryption Response
+                if zero % 3 == 0 {
+                    sc.ack_delay_ms = 0;
+                    if zero % 2 == 0 && sc.info_delay_ms.is_some() {
+                        sc.info_delay_ms = Some(0);
+                    }
+                    sc = c07::untie(sc);
+                }
+                Case { sc, base_seed, variants }
+            })
+            .boxed()
     }
     fn cases(&self, tier: Tier) -> u64 {
         tier.pick(1_000, 40_000)
@@ -284,7 +301,12 @@ impl Check for C08 {
             // then interleave with them on the wire, which no real client does — no cuts in this family
             let planned = if timed_compare { planned } else { Planned { plan: SegPlan::new(), straddles: vec![], prefix_split: false } };
             let transport = TransportScript { wscript, rscript: v.rscript.clone() };
-            let (var, _vtl) = timed::run(&case.sc, &transport, &planned.plan, v.select_seed);
+            let pipeline = if timed_compare { v.pipeline } else { 0 };
+            let (var, _vtl) = timed::run_pipelined(&case.sc, &transport, &planned.plan, v.select_seed, pipeline);
+            if pipeline >= 1 && case.sc.ack_delay_ms == 0 {
+                info.class("first_encrypted_frames_in_segment_of_encryption_response");
+                info.nontrivial = true;
+            }
             // classes
             for (_, _, _, k) in &planned.straddles {
                 info.class(format!("cut_across:{k}"));
